@@ -121,6 +121,6 @@ mod verif_kani_supportedcone {
         kani::cover!(merged && skipped);
     }
     #[kani::proof]
-    #[kani::unwind(5)]
-    fn new_collapsed_dev4() { check_on([cone_of(0), cone_of(2), cone_of(1), cone_of(0)]); }
+    #[kani::unwind(4)]
+    fn new_collapsed_dev4() { check_on([cone_of(0), cone_of(2), cone_of(0)]); }
 }
